@@ -102,4 +102,14 @@ MUTANTS = [
     ("flatten-flag-not-reentrant", ["C16"], P, "            if not already_flattening:\n                clear_treeflatten_memo()", "            clear_treeflatten_memo()"),
     ("treepath-same-as-plain", ["C16"], A, "            if cls_dim.treepath:\n                name = get_treepath_memo() + cls_dim.name", "            if cls_dim.treepath:\n                get_treepath_memo(); name = cls_dim.name"),
     ("ambiguity-check-dropped", ["C16"], S, "    if hasattr(_treepath_storage, \"value\") and _treepath_storage.value is not None:\n        raise AnnotationError(", "    if False:\n        raise AnnotationError("),
+    ("disable-flag-inverted", ["C19"], D, "                    config.jaxtyping_disable\n                    or getattr(fn", "                    (not config.jaxtyping_disable and False)\n                    or getattr(fn"),
+    ("disable-flag-dropped", ["C19"], D, "                    config.jaxtyping_disable\n                    or getattr(fn", "                    getattr(fn"),
+    ("yes-accepted", ["C19"], "_config.py", 'elif value.lower() in ("1", "true"):', 'elif value.lower() in ("1", "true", "yes", "on"):'),
+    ("int-accepted", ["C19"], "_config.py", "    if isinstance(value, bool):\n        return value", "    if isinstance(value, (bool, int)):\n        return bool(value)"),
+    ("case-sensitive", ["C19"], "_config.py", 'elif value.lower() in ("1", "true"):', 'elif value in ("1", "true", "True"):'),
+    # (ntc-below-ignored: equivalent mutant)
+    ("ntc-above-ignored", ["C19"], D, '                    or getattr(wrapped_fn_holder[0](), "__no_type_check__", False)\n', ""),
+    # (disabled-skips-body: equivalent mutant)
+    ("unknown-key-ignored", ["C19"], "_config.py", '            raise ValueError(f"Unrecognised config value {item}")', "            pass"),
+    ("disabled-double-call", ["C19"], D, "                ):\n                    return fn(*args, **kwargs)\n\n                # Raise bind-time", "                ):\n                    fn(*args, **kwargs)\n                    return fn(*args, **kwargs)\n\n                # Raise bind-time"),
 ]
